@@ -5,18 +5,19 @@
 (*   year -> context-sensitive -> alpha -> digit -> other                  *)
 (* as exact stage functions over abstract characters, and the P-layer of   *)
 (* C05 (lossless tiling, no empty / untyped segment, sound labels).        *)
-(* The keyboard, e-mail and website stages are heuristics: on the model's  *)
-(* alphabet they never fire (no four adjacent keys, no '.'), and on real   *)
-(* traces they are judged by soundness only (TrSeg).  Multi-word splitting *)
-(* needs eight letters and is judged on traces as well.                    *)
+(* The keyboard-walk stage is transcribed exactly as well (run tracking    *)
+(* per layout, the "interesting" filter); the e-mail and website stages    *)
+(* never fire on the model's alphabet (no '.') and are judged by soundness *)
+(* on real traces (TrSeg).  Multi-word splitting needs eight letters and   *)
+(* is judged on traces as well.                                            *)
 (* A section is [t |-> Seq(char), k |-> kind ("" unlabelled), n |-> number]*)
 (***************************************************************************)
 EXTENDS Integers, Sequences, FiniteSets, TLC, SequencesExt
 
-CONSTANTS Alphabet,     \* abstract characters (strings of length 1: "a" "B" "1" "9" "2" "0" "#" "<" "3" "!" " ")
+CONSTANTS Alphabet,     \* abstract characters (strings of length 1: "a" "B" "q" "z" "1" "9" "2" "0" "#" "<" "3" "!" " ")
           MaxLen
 
-Letters == {"a", "B"}
+Letters == {"a", "B", "q", "z"}
 Digits == {"1", "9", "2", "0", "3"}
 IsA(c) == c \in Letters
 IsD(c) == c \in Digits
@@ -29,6 +30,50 @@ Texts(sl) == FlattenSeq([i \in DOMAIN sl |-> sl[i].t])
 (* replace the unlabelled section at index i by `parts` (dropping empty unlabelled remainders) *)
 Parts(pre, mid, post) == (IF pre = <<>> THEN <<>> ELSE <<Sec(pre, "", 0)>>) \o <<mid>>
                          \o (IF post = <<>> THEN <<>> ELSE <<Sec(post, "", 0)>>)
+
+
+(* ---- detect_keyboard_walk: key positions of the alphabet on the two layouts <<board, row, pos>>; a character ---- *)
+(* ---- has at most one position per layout (find_keyboard_row_column takes the first row that contains it)    ---- *)
+KeyPos(c) == CASE c = "1" -> { <<1, 1, 0>>, <<2, 1, 0>> } [] c = "2" -> { <<1, 1, 1>>, <<2, 1, 1>> }
+               [] c = "3" -> { <<1, 1, 2>>, <<2, 1, 2>> } [] c = "9" -> { <<1, 1, 8>>, <<2, 1, 8>> }
+               [] c = "0" -> { <<1, 1, 9>>, <<2, 1, 9>> } [] c = "!" -> { <<1, 1, 0>>, <<2, 1, 0>> }
+               [] c = "#" -> { <<1, 1, 2>> } [] c = "q" -> { <<1, 2, 0>> } [] c = "a" -> { <<1, 3, 0>> }
+               [] c = "z" -> { <<1, 4, 0>> } [] c = "B" -> { <<1, 4, 4>> } [] c = "<" -> { <<1, 4, 7>> }
+               [] OTHER -> {}
+(* is_next_on_keyboard: layouts on which `cur` is a neighbour of `past` (same key does not count) *)
+NextOn(p, q) == /\ p[1] = q[1] /\ ~(p[2] = q[2] /\ p[3] = q[3])
+                /\ \/ (q[2] = p[2] /\ (q[3] = p[3] - 1 \/ q[3] = p[3] + 1))
+                   \/ (q[2] = p[2] + 1 /\ (q[3] = p[3] \/ q[3] = p[3] - 1))
+                   \/ (q[2] = p[2] - 1 /\ (q[3] = p[3] \/ q[3] = p[3] + 1))
+AdjBoards(past, cur) == IF past = "" THEN {} ELSE { p[1] : p \in { p \in KeyPos(past) : \E q \in KeyPos(cur) : NextOn(p, q) } }
+At(s, i) == IF i >= 1 /\ i <= Len(s) THEN s[i] ELSE ""
+FromEnd(s, k) == At(s, Len(s) - k + 1)            \* combo[-k]
+ClassCount(t) == (IF \E i \in DOMAIN t : IsA(t[i]) THEN 1 ELSE 0) + (IF \E i \in DOMAIN t : IsD(t[i]) THEN 1 ELSE 0)
+                 + (IF \E i \in DOMAIN t : ~IsA(t[i]) /\ ~IsD(t[i]) THEN 1 ELSE 0)
+(* interesting_keyboard (the false-positive word list needs letters that are not in this alphabet) *)
+Interesting(cb) ==
+   /\ At(cb, 1) # "e" /\ ~(At(cb, 2) = "e" /\ At(cb, 3) = "r") /\ ~(At(cb, 1) = "t" /\ At(cb, 2) = "y")
+   /\ ~(At(cb, 1) = "t" /\ At(cb, 2) = "t" /\ At(cb, 3) = "y") /\ At(cb, 1) # "y"
+   /\ ~(At(cb, 1) = "1" /\ At(cb, 2) = "2" /\ At(cb, 3) = "3")
+   /\ ~(FromEnd(cb, 1) = "3" /\ FromEnd(cb, 2) = "2" /\ FromEnd(cb, 3) = "1" /\ FromEnd(cb, 4) \notin {"q", "Q"})
+   /\ ClassCount(cb) >= 2
+RECURSIVE KW(_), KScan(_, _, _, _, _)
+KScan(pw, i, past, runs, combo) ==
+   IF i > Len(pw)
+     THEN IF Len(combo) >= 4 /\ Interesting(combo)
+            THEN (IF Len(combo) # Len(pw) THEN <<Sec(SubSeq(pw, 1, Len(pw) - Len(combo)), "", 0)>> ELSE <<>>)
+                 \o <<Sec(combo, "K", Len(combo))>>
+            ELSE <<Sec(pw, "", 0)>>
+   ELSE LET c == pw[i]
+            cur == AdjBoards(past, c)
+            runs2 == IF runs = {} THEN cur ELSE runs \cap cur
+        IN IF runs2 # {} THEN KScan(pw, i + 1, c, runs2, Append(combo, c))
+           ELSE IF Len(combo) >= 4 /\ Interesting(combo)
+                  THEN (IF Len(combo) # i - 1 THEN <<Sec(SubSeq(pw, 1, i - 1 - Len(combo)), "", 0)>> ELSE <<>>)
+                       \o <<Sec(combo, "K", Len(combo))>> \o KW(SubSeq(pw, i, Len(pw)))
+                  ELSE KScan(pw, i + 1, c, {}, <<c>>)
+KW(pw) == KScan(pw, 1, "", {}, <<>>)
+KeyboardStage(sl) == KW(sl[1].t)        \* the first stage works on the whole password
 
 (* ---- year_detection: first occurrence (prefix "19" tried before "20") of 19xx / 20xx not touching digits ---- *)
 YearAt(t, i, p) == /\ i + 3 <= Len(t) /\ t[i] = p[1] /\ t[i + 1] = p[2]
@@ -75,7 +120,7 @@ AlphaStage(sl) == Stage(sl, LAMBDA t : Runs(t, IsA, "A"))
 DigitStage(sl) == Stage(sl, LAMBDA t : Runs(t, IsD, "D"))
 OtherStage(sl) == [i \in DOMAIN sl |-> IF NoLab(sl[i]) THEN Sec(sl[i].t, "O", Len(sl[i].t)) ELSE sl[i]]
 
-Pipeline(pw) == OtherStage(DigitStage(AlphaStage(CtxStage(YearStage(<<Sec(pw, "", 0)>>)))))
+Pipeline(pw) == OtherStage(DigitStage(AlphaStage(CtxStage(YearStage(KeyboardStage(<<Sec(pw, "", 0)>>))))))
 
 ---------------------------------------------------------------------------
 VARIABLES pw, stage, sl
@@ -83,7 +128,7 @@ vars == <<pw, stage, sl>>
 Strings == UNION { [1..n -> Alphabet] : n \in 1..MaxLen }
 Init == pw \in Strings /\ stage = "input" /\ sl = <<Sec(pw, "", 0)>>
 Step(from, to, F(_)) == stage = from /\ stage' = to /\ sl' = F(sl) /\ UNCHANGED pw
-Next == \/ Step("input", "year", YearStage) \/ Step("year", "context", CtxStage)
+Next == \/ Step("input", "keyboard", KeyboardStage) \/ Step("keyboard", "year", YearStage) \/ Step("year", "context", CtxStage)
         \/ Step("context", "alpha", AlphaStage) \/ Step("alpha", "digit", DigitStage)
         \/ Step("digit", "other", OtherStage)
 Spec == Init /\ [][Next]_vars
@@ -97,6 +142,8 @@ Sound(s) == /\ s.k \in {"A", "D", "O"} => s.n = Len(s.t)
             /\ s.k = "O" => \A i \in DOMAIN s.t : ~IsA(s.t[i]) /\ ~IsD(s.t[i])
             /\ s.k = "Y" => Len(s.t) = 4 /\ (\A i \in 1..4 : IsD(s.t[i])) /\ <<s.t[1], s.t[2]>> \in { <<"1", "9">>, <<"2", "0">> }
             /\ s.k = "X" => \E k \in DOMAIN Context : Context[k] = s.t
+            /\ s.k = "K" => /\ s.n = Len(s.t) /\ Len(s.t) >= 4 /\ ClassCount(s.t) >= 2
+                            /\ \E b \in {1, 2} : \A i \in 1..(Len(s.t) - 1) : b \in AdjBoards(s.t[i], s.t[i + 1])
 AllSound == \A i \in DOMAIN sl : Sound(sl[i])
 AllTyped == stage = "other" => \A i \in DOMAIN sl : ~NoLab(sl[i])
 (* digit segments are maximal within what the digit stage was given: no two adjacent D sections, and an *)
